@@ -210,9 +210,19 @@ def env(name, objs):
         gc.collect()
 
 
+def weak_hash_events(ctx):
+    """Run in the weak-hash interpreter (harness/weakhash.py): the relation table of the larger values, built where unequal
+    values share their hash all the time (equality, order, set and dictionary lookups must not lean on hash values)."""
+    rnd = util.rng(ctx, 88)
+    big, bigbases = big_universe(rnd, True)
+    events, allv = build_table(ctx, rnd, True, big + bigbases, "larger values, weak hashes")
+    return [{"allv": allv, "events": events}]
+
+
 def run(ctx):
     quick = ctx.tier == "quick"
     rnd = util.rng(ctx, 8)
+    weak = util.weak_hash_start(ctx, "c08", "weak_hash_events")
     vals, bases = universe(rnd, quick)
     # ---- history machine: small value set, all action sequences via a transition tour -------------
     hv = [v for v in vals if v["p"] in ((0, 1),) and (v["kind"] == "Perm" or v["R"] in ((), tuple(full(2, [1], []))))]
@@ -284,7 +294,10 @@ def run(ctx):
     big, bigbases = big_universe(rnd, quick)
     tables = [("small universe", vals + bases), ("larger values", big + bigbases)]
     built = [build_table(ctx, rnd, quick, allv, label) for label, allv in tables]
-    with concurrent.futures.ThreadPoolExecutor(max_workers=2) as ex:
+    for doc in util.weak_hash_finish(ctx, weak, "c08"):
+        tables.append(("larger values, hashes reduced modulo 3", doc["allv"]))
+        built.append((doc["events"], doc["allv"]))
+    with concurrent.futures.ThreadPoolExecutor(max_workers=3) as ex:
         outs = list(ex.map(lambda t: judge_table(*t), built))
     for (label, allv), (events, _), (res, done) in zip(tables, built, outs):
         ctx.add_tlc(res, "relation table validation (%s)" % label)
